@@ -12,7 +12,7 @@ import "strings"
 // model_splitCount(s, sep) == len(strings.Split(s, sep)) for non-empty sep.
 func model_splitCount(s, sep string) int {
 	i := strings.Index(s, sep)
-	if i < 0 {
+	if i < 0 || len(sep) == 0 { // (empty separators are outside the model; the guard keeps the definition terminating)
 		return 1
 	}
 	return 1 + model_splitCount(s[i+len(sep):], sep)
@@ -21,7 +21,7 @@ func model_splitCount(s, sep string) int {
 // model_splitPart(s, sep, k) == strings.Split(s, sep)[k] for 0 <= k < count.
 func model_splitPart(s, sep string, k int) string {
 	i := strings.Index(s, sep)
-	if i < 0 {
+	if i < 0 || len(sep) == 0 {
 		return s
 	}
 	if k <= 0 {
